@@ -181,3 +181,66 @@ func incrementOf(v ssa.Value, f *types.Var) (ssa.Value, bool) {
 	}
 	return nil, false
 }
+
+// wrappedCall: when call invokes an unexported single-block helper of the same package whose body only forwards to one
+// other call and returns its result (`func (s *T) lowerBound(x int) int { return sort.Search(...) }`), the forwarded
+// call is returned together with a function translating the helper's parameters to the arguments of the outer call.
+func wrappedCall(call *ssa.Call) (*ssa.Call, func(ssa.Value) ssa.Value, bool) {
+	h := call.Call.StaticCallee()
+	if h == nil || h.Blocks == nil || h.Object() == nil || h.Object().Exported() || len(h.Blocks) != 1 {
+		return nil, nil, false
+	}
+	var inner *ssa.Call
+	for _, in := range h.Blocks[0].Instrs {
+		switch x := in.(type) {
+		case *ssa.Call:
+			if _, isB := x.Call.Value.(*ssa.Builtin); isB {
+				continue // len(...) computed for an argument
+			}
+			if inner != nil {
+				return nil, nil, false
+			}
+			inner = x
+		case *ssa.Return:
+			if inner == nil || len(x.Results) != 1 || stripConv(x.Results[0]) != ssa.Value(inner) {
+				return nil, nil, false
+			}
+		case *ssa.Store:
+			if _, isLocal := x.Addr.(*ssa.Alloc); !isLocal {
+				return nil, nil, false // (a parameter captured by a closure is spilled into a local cell: fine)
+			}
+		case *ssa.MapUpdate, *ssa.Send, *ssa.Go, *ssa.Defer:
+			return nil, nil, false
+		}
+	}
+	if inner == nil {
+		return nil, nil, false
+	}
+	tr := func(v ssa.Value) ssa.Value {
+		if q, ok := stripConv(v).(*ssa.Parameter); ok {
+			for i, hp := range h.Params {
+				if hp == q && i < len(call.Call.Args) {
+					return call.Call.Args[i]
+				}
+			}
+		}
+		return v
+	}
+	return inner, tr, true
+}
+
+// callTo: v is a call of fn, directly or through a forwarding helper (wrappedCall); returns the call whose arguments
+// are meaningful and the translation of its arguments into the caller's frame.
+func callTo(v ssa.Value, is func(*ssa.Call) bool) (*ssa.Call, func(ssa.Value) ssa.Value, bool) {
+	call, ok := stripConv(v).(*ssa.Call)
+	if !ok {
+		return nil, nil, false
+	}
+	if is(call) {
+		return call, func(x ssa.Value) ssa.Value { return x }, true
+	}
+	if inner, tr, ok := wrappedCall(call); ok && is(inner) {
+		return inner, tr, true
+	}
+	return nil, nil, false
+}
